@@ -2,6 +2,7 @@ package props
 
 import (
 	"fmt"
+	"sort"
 	"strconv"
 	"strings"
 
@@ -45,7 +46,7 @@ func runC13(c *fw.Ctx, idx int) fw.Result {
 	switch cmd {
 	case "snps":
 		W := r.Range(1, 150)
-		nq := r.Range(1, 30)
+		nq := r.Range(1, 64)
 		ref := gen.RandSeq(r, W, gen.SeqProfile{PAmbig: 0.03, PGap: 0.01})
 		vp := gen.DefaultVarProfile()
 		vp.Recur = true
@@ -83,7 +84,7 @@ func runC13(c *fw.Ctx, idx int) fw.Result {
 		vp.Recur = true
 		vp.PSub = 0.03
 		opts := gen.AnnoOpts{MaxFeats: 4, AllowUnnamed: true, AllowSlip: true, SplitCodons: true}
-		ac = makeAnnoCase(r, c.Thorough(), []string{"gb", "gff"}[r.Intn(2)], form, vp, 30, opts)
+		ac = makeAnnoCase(r, c.Thorough(), []string{"gb", "gff"}[r.Intn(2)], form, vp, 50, opts)
 		if form == "sam" {
 			// make SAM queries share mutations: derive them from a common mutated genome
 			ac = recurSam(r, ac)
@@ -157,89 +158,112 @@ func runC13(c *fw.Ctx, idx int) fw.Result {
 			}
 		}
 	}
-	// threshold
+	// thresholds: every distinct occurring frequency (passed as the same float64), plus
+	// values just above and just below one of them, 0 and 1
+	type thr struct {
+		kind string
+		v    float64
+	}
+	var ths []thr
+	seenF := map[float64]bool{}
 	var freqs []float64
 	for _, k := range count {
-		freqs = append(freqs, float64(k)/float64(n))
+		f := float64(k) / float64(n)
+		if !seenF[f] {
+			seenF[f] = true
+			freqs = append(freqs, f)
+		}
 	}
-	thKind := "zero"
-	th := 0.0
+	sort.Float64s(freqs)
+	if len(freqs) > 14 {
+		p := r.Perm(len(freqs))
+		var sel []float64
+		for _, i := range p[:14] {
+			sel = append(sel, freqs[i])
+		}
+		freqs = sel
+	}
+	for _, f := range freqs {
+		ths = append(ths, thr{"equal", f})
+	}
+	ths = append(ths, thr{"zero", 0}, thr{"one", 1})
 	if len(freqs) > 0 {
 		f := freqs[r.Intn(len(freqs))]
-		switch r.Intn(5) {
-		case 0:
-			thKind, th = "zero", 0
-		case 1:
-			thKind, th = "one", 1
-		case 2:
-			thKind, th = "equal", f
-		case 3:
-			thKind, th = "above", f+1e-12
-		default:
-			thKind, th = "below", f-1e-12
-		}
+		ths = append(ths, thr{"above", f + 1e-12}, thr{"below", f - 1e-12})
 	}
-	agg, err := runAgg(th)
-	res.Evals++
-	files["observed_aggregate.csv"] = agg
-	argv = append(argv, fmt.Sprintf("--threshold=%v", th))
-	if err != nil {
-		res.Fail(cmd+":error-on-valid-input", "aggregate run: "+err.Error(), files, argv)
-		return res
-	}
-	alines := strings.Split(strings.TrimSuffix(agg, "\n"), "\n")
-	if alines[0] != header {
-		res.Fail(cmd+":header", "bad aggregate header "+alines[0], files, argv)
-		return res
-	}
-	expect := map[string]string{}
+	thKind := ""
 	boundary := false
-	for m, k := range count {
-		f := float64(k) / float64(n)
-		if f >= th {
-			expect[m] = strconv.FormatFloat(f, 'f', 9, 64)
-		}
-		if f == th {
-			boundary = true
-		}
-	}
 	got := map[string]string{}
-	lastLo := -1
-	for _, l := range alines[1:] {
-		i := strings.LastIndexByte(l, ',')
-		if i < 0 {
-			res.Fail(cmd+":line-format", "bad aggregate line "+l, files, argv)
+	baseArgv := argv
+	for _, t := range ths {
+		th := t.v
+		thKind = t.kind
+		agg, err := runAgg(th)
+		res.Evals++
+		files["observed_aggregate.csv"] = agg
+		argv = append(append([]string{}, baseArgv...), fmt.Sprintf("--threshold=%v", th))
+		if err != nil {
+			res.Fail(cmd+":error-on-valid-input", "aggregate run: "+err.Error(), files, argv)
 			return res
 		}
-		m, f := l[:i], l[i+1:]
-		if _, dup := got[m]; dup {
-			res.Fail(cmd+":duplicate-line", "mutation listed twice in --aggregate output: "+m, files, argv)
+		alines := strings.Split(strings.TrimSuffix(agg, "\n"), "\n")
+		if alines[0] != header {
+			res.Fail(cmd+":header", "bad aggregate header "+alines[0], files, argv)
+			return res
 		}
-		got[m] = f
-		lo, hi, ok := posOf(m)
-		if ok {
-			// greedy feasibility of a non-decreasing position choice
-			if hi < lastLo {
-				res.Fail(cmd+":aggregate-order", fmt.Sprintf("aggregate line %s (positions %d-%d) comes after position %d", m, lo, hi, lastLo), files, argv)
-				lastLo = -1
-			} else if lo > lastLo {
-				lastLo = lo
+		expect := map[string]string{}
+		for m, k := range count {
+			f := float64(k) / float64(n)
+			if f >= th {
+				expect[m] = strconv.FormatFloat(f, 'f', 9, 64)
+			}
+			if f == th {
+				boundary = true
 			}
 		}
-	}
-	for m, f := range expect {
-		g, ok := got[m]
-		if !ok {
-			res.Fail(cmd+":missing-line", fmt.Sprintf("%s occurs in %d of %d sequences (frequency %s >= threshold %v) but is not in the --aggregate output", m, count[m], n, f, th), files, argv)
-		} else if g != f {
-			res.Fail(cmd+":frequency", fmt.Sprintf("%s occurs in %d of %d sequences: expected frequency %s, reported %s", m, count[m], n, f, g), files, argv)
+		got = map[string]string{}
+		lastLo := -1
+		for _, l := range alines[1:] {
+			i := strings.LastIndexByte(l, ',')
+			if i < 0 {
+				res.Fail(cmd+":line-format", "bad aggregate line "+l, files, argv)
+				return res
+			}
+			m, f := l[:i], l[i+1:]
+			if _, dup := got[m]; dup {
+				res.Fail(cmd+":duplicate-line", "mutation listed twice in --aggregate output: "+m, files, argv)
+			}
+			got[m] = f
+			lo, hi, ok := posOf(m)
+			if ok {
+				// greedy feasibility of a non-decreasing position choice
+				if hi < lastLo {
+					res.Fail(cmd+":aggregate-order", fmt.Sprintf("aggregate line %s (positions %d-%d) comes after position %d", m, lo, hi, lastLo), files, argv)
+					lastLo = -1
+				} else if lo > lastLo {
+					lastLo = lo
+				}
+			}
+		}
+		for m, f := range expect {
+			g, ok := got[m]
+			if !ok {
+				res.Fail(cmd+":missing-line:"+t.kind, fmt.Sprintf("%s occurs in %d of %d sequences (frequency %s >= threshold %v) but is not in the --aggregate output", m, count[m], n, f, th), files, argv)
+			} else if g != f {
+				res.Fail(cmd+":frequency", fmt.Sprintf("%s occurs in %d of %d sequences: expected frequency %s, reported %s", m, count[m], n, f, g), files, argv)
+			}
+		}
+		for m, g := range got {
+			if _, ok := expect[m]; !ok {
+				res.Fail(cmd+":extra-line:"+t.kind, fmt.Sprintf("%s,%s is in the --aggregate output but occurs in %d of %d sequences with threshold %v", m, g, count[m], n, th), files, argv)
+			}
+		}
+		res.Count("thresholds_"+t.kind, 1)
+		if len(res.Viol) > 0 {
+			break
 		}
 	}
-	for m, g := range got {
-		if _, ok := expect[m]; !ok {
-			res.Fail(cmd+":extra-line", fmt.Sprintf("%s,%s is in the --aggregate output but occurs in %d of %d sequences with threshold %v", m, g, count[m], n, th), files, argv)
-		}
-	}
+	agg := files["observed_aggregate.csv"]
 	res.Count("aggregate_lines_checked", len(got))
 	res.Count("distinct_mutations", len(count))
 	if len(count) > 0 {
@@ -264,7 +288,7 @@ func runC13(c *fw.Ctx, idx int) fw.Result {
 func recurSam(r *fw.Rng, ac annoCase) annoCase {
 	ref := ac.an.Ref
 	pr := gen.DefaultSamProfile()
-	pr.MaxQueries = 30
+	pr.MaxQueries = 50
 	pr.PSub = 0.01
 	pr.PIns, pr.PDel, pr.PSkip = 0.01, 0.01, 0.003
 	pr.MaxSegs = 2
